@@ -42,6 +42,11 @@ func queueScenarios(prop string, thorough bool) []Scenario {
 	add(s)
 	s = QueueScenario{Name: "enqueue2-max2-fault1-lag1", MaxConcurrency: 2, Creates: []string{"Enqueue", "Enqueue", "Enqueue"}, MaxCreates: 3, Horizon: 600, NoFinish: !thorough, Budget: mc.Budget{Faults: 1, Lag: 1}}
 	add(s)
+	// Preemption: a Job event delivered between the counter read and the compare-and-add.
+	s = QueueScenario{Name: "enqueue3-max2-preempt1", MaxConcurrency: 2, Creates: []string{"Enqueue", "Enqueue", "Enqueue"}, MaxCreates: 3, Horizon: 600, Budget: mc.Budget{Lag: 1, Preempt: 1}}
+	add(s)
+	s = QueueScenario{Name: "forbid-allow-max1-preempt1", MaxConcurrency: 1, Creates: []string{"Forbid", "Allow", "Enqueue"}, MaxCreates: 3, Horizon: 600, Budget: mc.Budget{Lag: 1, Preempt: 1}}
+	add(s)
 	// startAfter, owned and independent.
 	s = QueueScenario{Name: "startafter-owned", MaxConcurrency: 1, Creates: []string{"Enqueue@5", "Enqueue", "Allow@90"}, MaxCreates: 3, Horizon: 600}
 	add(s)
